@@ -783,7 +783,23 @@ def run_once(sc):
             ctl.inject = [dict(i) for i in op.get("inject", [])]
             ctx = {"cs": getattr(drv, "connection_size", 0)}
             calls += 1
-            if kind == "open":
+            if op.get("sacrificed"):
+                # the call a fail-stop transport fault cuts short (if the call is long enough to reach the fault's
+                # position): what it returns is not judged here (C10's engine does that), the monitors stay on
+                if kind == "read":
+                    outcome, res = harness.call(sim, drv.read, *[q["text"] for q in op["reqs"]])
+                elif kind == "write":
+                    outcome, res = harness.call(sim, drv.write, *[(q["text"], v) for q, v in zip(op["reqs"], op["values"])])
+                else:
+                    outcome, res = harness.call(sim, drv.get_tag_list, op.get("program"))
+                fired_ = any(f.fired for f in net.faults)
+                if fired_:
+                    sim.probe("fault_inside_" + kind)
+                    if len([1 for r_ in world.oplog if r_.get("kind") in ("symbol_list", "template", "tag_service",
+                                                                         "multi_service")]) >= 1:
+                        sim.probe("fault_after_first_reply_of_call")
+                shape.append(("sacrificed", kind, outcome, fired_))
+            elif kind == "open":
                 outcome, res = harness.call(sim, drv.open)
                 shape.append(("open", outcome))
                 if outcome == "ok" and res:
@@ -1138,6 +1154,22 @@ def gen(seed, tier, prop="C01"):
                 ops.append(op)
     if r.random() < 0.15 and not any(o["kind"] == "mutate_project" for o in ops):
         sc["bystander"] = gen_bystander(r, sc, tier)
+    rf = Sim(seed).stream("gen.fault")      # its own stream: the fault-free scenarios of a seed stay what they were
+    if rf.random() < 0.12 and "bystander" not in sc and not any(o["kind"] in ("mutate_project", "many_reads") for o in ops):
+        # a fail-stop transport fault in the middle of one call (between the pages of an upload, between
+        # the fragments or packets of a read/write), then the usual recovery close(); open(): the call that
+        # was cut is not judged, everything after the recovery is judged in full against the controller
+        idxs = [i for i, o in enumerate(ops) if o["kind"] in ("read", "write", "get_tag_list") and not o.get("inject")]
+        if idxs:
+            i = rf.choice(idxs)
+            victim = copy.deepcopy(ops[i])
+            victim.update(id="fv", sacrificed=True)
+            d = rf.choice(("send", "recv"))
+            kind = rf.choice(("send_epipe", "send_rst") if d == "send" else ("peer_fin", "peer_rst"))
+            sc["faults"] = [{"id": "f0", "kind": kind,
+                             "at": {"op": "fv", "dir": d, "nth": rf.choice((0, 0, 1, 1, 2, 3, 5, 8)),
+                                    "byte": 0 if rf.random() < 0.6 else rf.choice((1, 4, 23, 24, 30, 44))}}]
+            ops[i:i] = [victim, {"id": "fvc", "kind": "close"}, {"id": "fvo", "kind": "open"}]
     return sc
 
 
